@@ -67,6 +67,13 @@ pub fn alphabet() -> Vec<(&'static str, String)> {
         ("err", "0x"),
         ("err", "0b"),
         ("err", "\"a\\"),
+        ("err", "\u{feff}"),
+        ("err", "\u{0}"),
+        ("err", "\u{a0}"),
+        ("err", "\u{b}"),
+        ("err", "\u{85}"),
+        ("err", "\u{200b}"),
+        ("err", "\r"),
     ] {
         v.push((c, s.to_string()));
     }
